@@ -1,12 +1,21 @@
 import GaeaVerif.Sexp
 import GaeaVerif.Model.BinRow
 import GaeaVerif.Spec.BinProto
+import GaeaVerif.Model.ColDef
+import GaeaVerif.Model.BinRowBig
 /-
   Driver for C13.  Requests:
     m (rows ((TY FLAG) …) ((TEXTHEX BITS64 BITS32) | (TEXTHEX err) …) ROWHEX …)
         text-protocol rows of a resultset with the given columns → binary rows.
         The second list is the graph of the opaque float functions on the
         float cells of this case (computed by the harness with strconv/math).
+    m (wire (DEFHEX …) ((TEXTHEX BITS64 BITS32) | (TEXTHEX err) …) ROWHEX …)
+        a whole COM_STMT_EXECUTE result: the backend's column-definition
+        packets and text rows → (ok (DEFHEX …) (ROWHEX …)), what the client receives
+    m (big TY FLAG N)     a row of one pattern cell of N bytes (BinRowBig.patCell) in a column of
+        byte-string type TY and the sentinel INT 7 → (ok HEADHEX N HASH TAILHEX): the bytes before
+        the cell, its length, its FNV-1a hash, the bytes after it.  Answered from theorem
+        C13.big_cell_row; for N ≤ 70000 the model itself is run as well and must agree.
     m (abv TY GOVAL)      AppendBinaryValue on one dynamic value
         GOVAL = (nil) | (other) | (i64 N) | (u64 N) | (f64 BITS64 BITS32 FMTHEX)
               | (dec TEXTHEX) | (str HEX) | (bytes HEX)
@@ -14,7 +23,7 @@ import GaeaVerif.Spec.BinProto
   Outputs: (ok HEX …) | (err KIND).
 -/
 namespace GaeaVerif.Drv.C13
-open GaeaVerif GaeaVerif.BinRow GaeaVerif.BinProto
+open GaeaVerif GaeaVerif.BinRow GaeaVerif.BinProto GaeaVerif.ColDef
 
 def errName : Err → String
   | .textRow => "text-row"
@@ -29,6 +38,9 @@ def errName : Err → String
   | .valueType => "value-type"
   | .shortData => "short-data"
   | .fieldType => "field-type"
+  | .intRange => "int-range"
+  | .fieldDef => "field-def"
+  | .defWrite => "def-write"
   | .panic => "panic"
 
 def fmtRes (r : Res (List Bytes)) : String :=
@@ -97,12 +109,53 @@ def parseGoVal (e : Sexp) : Option (GoVal × FloatOps) :=
   | .list [.atom "bytes", s] => s.asBytes?.map fun s => (.bytes s, noOps)
   | _ => none
 
+structure WireReq where
+  defs : List Bytes
+  ops : FloatOps
+  rows : List Bytes
+
+def parseWireReq (req : Sexp) : Option WireReq :=
+  match req with
+  | .list (.atom "wire" :: .list ds :: .list ft :: rows) =>
+    match ds.mapM Sexp.asBytes?, ft.mapM parseFEntry, rows.mapM Sexp.asBytes? with
+    | some ds, some ft, some rows => some { defs := ds, ops := opsOf ft, rows := rows }
+    | _, _, _ => none
+  | _ => none
+
+def fmtWire (r : Res (List Bytes × List Bytes)) : String :=
+  match r with
+  | .ok (defs, rows) =>
+    "(ok (" ++ " ".intercalate (defs.map bytesToHex) ++ ") (" ++ " ".intercalate (rows.map bytesToHex) ++ "))"
+  | .err .panic => "panic"
+  | .err e => "(err " ++ errName e ++ ")"
+
 def model (req : Sexp) : String :=
   match req with
   | .list (.atom "rows" :: _) =>
     match parseRowsReq req with
     | some r => fmtRes (rowsToBinary r.ops r.fields r.rows)
     | none => "bad"
+  | .list (.atom "wire" :: _) =>
+    match parseWireReq req with
+    | some r => fmtWire (stmtResult r.ops r.defs r.rows)
+    | none => "bad"
+  | .list [.atom "big", ty, flag, n] =>
+    match ty.asNat?, flag.asNat?, n.asNat? with
+    | some ty, some flag, some n =>
+      if !isBytesType ty then "bad"
+      else
+        let answer := "(ok " ++ bytesToHex (bigRowHead n) ++ " " ++ toString n ++ " " ++ toString (patHash n).toNat
+          ++ " " ++ bytesToHex bigRowTail ++ ")"
+        if n ≤ 70000 then
+          -- small enough for the list-based model: it must say the same
+          let cell := patCell n
+          match rowToBinary (opsOf []) [⟨ty, flag⟩, ⟨TypeLong, 0⟩] (encodeTextRow [some cell, some [55]]) with
+          | .ok out =>
+            if out == bigRowHead n ++ cell ++ bigRowTail && hashBytes cell == patHash n then answer
+            else "model-disagrees-with-big-cell-row"
+          | .err _ => "model-disagrees-with-big-cell-row"
+        else answer
+    | _, _, _ => "bad"
   | .list [.atom "abv", ty, v] =>
     match ty.asNat?, parseGoVal v with
     | some ty, some (v, ops) =>
@@ -125,9 +178,17 @@ def classOf (expected got : Val) : String :=
   | .dt .., _ => "date-differs"
   | .time _, _ => "time-differs"
 
-def firstDiff : List (Option Val) → List Val → Option String
-  | some e :: es, g :: gs => if Val.same g e then firstDiff es gs else some (classOf e g)
-  | none :: es, _ :: gs => firstDiff es gs
+def isDateType (f : Field) : Bool := f.typ == TypeDate || f.typ == TypeNewDate
+
+/-- First column whose decoded value is not what the text says.  A DATE cell
+    that does not read as a date and comes out as the zero date is the known
+    class `non-date-sent-as-zero-date`; for any other cell that reads as
+    nothing, nothing is demanded. -/
+def firstDiff : List (Field × Option Bytes × Option Val) → List Val → Option String
+  | (_, _, some e) :: es, g :: gs => if Val.same g e then firstDiff es gs else some (classOf e g)
+  | (f, some _, none) :: es, g :: gs =>
+    if isDateType f && g == .dt 0 0 0 0 0 0 0 then some "non-date-sent-as-zero-date" else firstDiff es gs
+  | (_, none, none) :: es, _ :: gs => firstDiff es gs
   | _, _ => none
 
 /-- The property on one (text row, binary row) pair. -/
@@ -135,9 +196,9 @@ def judgeRow (ops : FloatOps) (fields : List Field) (text bin : Bytes) : Option 
   match decodeTextRow fields.length text with
   | none => none                      -- not a text row: nothing is demanded
   | some cells =>
-    let want := (fields.zip cells).map fun (f, c) => denoteText ops f c
+    let want := (fields.zip cells).map fun (f, c) => (f, c, readText ops f c)
     match decodeBinRow fields bin with
-    | none => if want.all Option.isSome then some "undecodable-row" else none
+    | none => if want.all (fun w => w.2.2.isSome) then some "undecodable-row" else none
     | some got => firstDiff want got
 
 def judgeRows (ops : FloatOps) (fields : List Field) : List Bytes → List Bytes → Option String
@@ -165,6 +226,54 @@ def oracle (req out : Sexp) : String :=
           | none => "ok"
           | some c => "viol " ++ c
       | _ => "viol unparsable"
+  | .list (.atom "wire" :: _) =>
+    match parseWireReq req with
+    | none => "bad"
+    | some r =>
+      -- the definitions as a client reads them; nothing is demanded unless all are well formed
+      match r.defs.mapM decodeColumnDef with
+      | none => "ok"
+      | some cds =>
+        match out with
+        | .atom "panic" => "viol panic-instead-of-error"
+        | .list [.atom "err", _] => "ok"
+        | .list [.atom "ok", .list ds, .list rows] =>
+          match ds.mapM Sexp.asBytes?, rows.mapM Sexp.asBytes? with
+          | some ds, some bins =>
+            match ds.mapM decodeColumnDef with
+            | none => "viol coldef-undecodable"
+            | some got =>
+              if got != cds.map (fun c => { c with catalog := defCatalog }) then "viol coldef-changed"
+              else
+                -- the rows are decoded by the definitions the client received
+                match judgeRows r.ops (got.map ColumnDef.toField) r.rows bins with
+                | none => "ok"
+                | some c => "viol " ++ c
+          | _, _ => "viol unparsable"
+        | _ => "viol unparsable"
+  | .list [.atom "big", _, _, n] =>
+    -- the row must be header, bitmap, a length prefix the spec reader accepts for N, the cell, the sentinel
+    match n.asNat?, out with
+    | _, .atom "panic" => "viol panic-instead-of-error"
+    | _, .list [.atom "err", _] => "ok"
+    | _, .list [.atom "garbled"] => "viol undecodable-row"
+    | some n, .list [.atom "ok", head, len, hash, tail] =>
+      match head.asBytes?, len.asNat?, hash.asNat?, tail.asBytes? with
+      | some (0 :: 0 :: pre), some len, some hash, some tail =>
+        -- `pre` followed by `len` bytes must read as a length-encoded string of `n` bytes
+        let okPrefix :=
+          match pre with
+          | [c] => c.toNat < 251 && c.toNat == len
+          | [0xfc, a, b] => leNat [a, b] == len
+          | [0xfd, a, b, c] => leNat [a, b, c] == len
+          | [0xfe, a, b, c, d, e, f, g, h] => leNat [a, b, c, d, e, f, g, h] == len
+          | _ => false
+        if !okPrefix then "viol undecodable-row"
+        else if len != n || hash != (patHash n).toNat then "viol bytes-differ"
+        else if tail != [7, 0, 0, 0] then "viol integer-differs"
+        else "ok"
+      | _, _, _, _ => "viol undecodable-row"
+    | _, _ => "viol unparsable"
   | .list (.atom "abv" :: _) => "ok"      -- correspondence only
   | _ => "bad"
 
